@@ -438,6 +438,34 @@ def node(w, hist, cfg, res):
                                  first=repr(obs1[q])[:300],
                                  second_result=repr(obs3.get(q))[:300]))
                         break
+                # the next commit after the pack, with a clock that has not
+                # moved since the history's last commit: its id is later
+                # than the one lastTransaction() reports (also when the
+                # pack removed the newest transaction as garbage)
+                res.clause('C07.tids')
+                lt_before = call(pw.storage.lastTransaction)
+                cur = call(pw.storage.load, p64(ROOT))
+                if not isinstance(cur, Exc) and tids:
+                    from persistent.TimeStamp import TimeStamp
+                    env.CLOCK.now = TimeStamp(tids[-1]).timeTime()
+                    tx = world.TMD(b'after', b'pack')
+                    r = call(lambda: (
+                        pw.storage.tpc_begin(tx),
+                        pw.storage.store(p64(ROOT), cur[1], cur[0], '', tx),
+                        pw.storage.tpc_vote(tx),
+                        pw.storage.tpc_finish(tx)))
+                    if isinstance(r, Exc):
+                        call(pw.storage.tpc_abort, tx)
+                        bad('tids', '%s:commit-after-pack:%s' % (tag, r.name),
+                            dict(pack=label, gc=gc, error=repr(r)))
+                    elif not r[3] > lt_before:
+                        # (later than what lastTransaction() said; an id
+                        # that went with a removed transaction and that a
+                        # reopened storage cannot know is not compared)
+                        bad('tids', '%s:commit-after-pack:id-not-later' % tag,
+                            dict(pack=label, gc=gc, new=r[3],
+                                 newest_before=tids[-1],
+                                 last_transaction=lt_before))
             finally:
                 pw.close()
             # differential undo of every transaction after T
